@@ -1,6 +1,10 @@
 package c17
 
-import "verifharness/kit"
+import (
+	"strings"
+
+	"verifharness/kit"
+)
 
 // Mutate breaks exactly one rule of the language in a valid schema (the malformed stream).
 // Returns the name of the mutation applied.
@@ -38,7 +42,14 @@ func tabRefs(a Schema) []tabRef {
 var mutations = []string{"dup-name", "inherit-unknown", "inherit-concrete", "no-inherit", "ref-unknown", "ref-abstract", "ref-sibling",
 	"nested-kind", "nested-abstract", "view-pk-undefined", "view-no-cc", "view-varchar-pk", "too-long", "grant-unknown-role", "grant-after-revoke",
 	"param-unknown", "ws-inherit-concrete", "ws-inherit-unknown", "use-abstract", "use-unknown", "unique-undefined", "dup-member",
-	"limit-unknown-rate", "blob-in-type", "query-no-result", "abstract-descriptor"}
+	"limit-unknown-rate", "blob-in-type", "query-no-result", "abstract-descriptor",
+	// INHERITS cycles of every shape: self, 2, 3; alone, with an inheritor hanging on the cycle, with an
+	// inheritor of an inheritor; a nested table on a cyclic base; the same for workspaces
+	"tab-cycle-1", "tab-cycle-2", "tab-cycle-3", "tab-cycle-1-leaf", "tab-cycle-2-leaf", "tab-cycle-3-leaf",
+	"tab-cycle-1-leaf2", "tab-cycle-2-leaf2", "tab-cycle-3-leaf2", "tab-cycle-1-nested", "tab-cycle-2-nested",
+	"ws-cycle-1", "ws-cycle-2", "ws-cycle-3", "ws-cycle-1-leaf", "ws-cycle-2-leaf", "ws-cycle-3-leaf", "ws-cycle-2-leaf2",
+	// accepted by the analyser, refused only by builder.Build()
+	"view-no-partition-key", "grant-all-empty-class"}
 
 func Mutate(r *kit.Rng, a Schema) (string, bool) {
 	start := r.Intn(len(mutations))
@@ -91,6 +102,9 @@ func apply(r *kit.Rng, a Schema, m string) bool {
 		return &x
 	}
 	u := func(n uint64) *uint64 { return &n }
+	if strings.HasPrefix(m, "tab-cycle-") || strings.HasPrefix(m, "ws-cycle-") {
+		return cycle(a, m)
+	}
 	switch m {
 	case "dup-name":
 		// two statements of one package get the same name
@@ -288,6 +302,48 @@ func apply(r *kit.Rng, a Schema, m string) bool {
 			x.it.Func.Result = FParam{K: "none"}
 			return true
 		}
+	case "view-no-partition-key":
+		if x := pickItem(func(i *WsItem) bool { return i.View != nil && len(i.View.CC) > 0 }); x != nil {
+			x.it.View.PK = nil
+			return true
+		}
+	case "grant-all-empty-class":
+		// GRANT ... ON ALL <class> in a workspace that declares nothing of the class
+		for _, w := range wss {
+			var role *QRef
+			has := map[string]bool{}
+			firstRevoke := len(w.w.Items)
+			for i, it := range w.w.Items {
+				switch {
+				case it.Grant != nil:
+					role = &it.Grant.Role
+					if it.Grant.Revoke && i < firstRevoke {
+						firstRevoke = i
+					}
+				case it.View != nil:
+					has["allviews"] = true
+				case it.Func != nil && it.Func.Cmd:
+					has["allcmds"] = true
+				case it.Func != nil:
+					has["allqueries"] = true
+				case it.Table != nil:
+					has["alltables"] = true
+				}
+			}
+			if !w.w.Abstract {
+				has["alltables"] = true // the descriptor
+			}
+			if role == nil {
+				continue
+			}
+			for _, k := range []string{"allviews", "allcmds", "allqueries", "alltables"} {
+				if !has[k] {
+					g := WsItem{Grant: &Grant{What: GWhat{K: k, All: k == "alltables"}, Role: *role}}
+					w.w.Items = append(w.w.Items[:firstRevoke:firstRevoke], append([]WsItem{g}, w.w.Items[firstRevoke:]...)...)
+					return true
+				}
+			}
+		}
 	case "abstract-descriptor":
 		for _, w := range wss {
 			if w.w.Abstract {
@@ -319,4 +375,57 @@ func rootFamily(a Schema, p *Pkg, root *Table) string {
 		t = findRoot(a, pkg, t.Inh.Name)
 	}
 	return ""
+}
+
+// cycle adds an INHERITS cycle of tables or workspaces to the first package (names are new)
+func cycle(a Schema, m string) bool {
+	p := &a[0]
+	if len(p.Files) == 0 || len(p.Files[0]) == 0 {
+		return false
+	}
+	parts := strings.Split(m, "-") // tab|ws cycle k [leaf|leaf2|nested]
+	k := int(parts[2][0] - '0')
+	outside := ""
+	if len(parts) > 3 {
+		outside = parts[3]
+	}
+	q := func(n string) *QRef { return &QRef{Pkg: p.Name, Name: n} }
+	name := func(prefix string, i int) string { return prefix + string(rune('0'+i)) }
+	if parts[0] == "tab" {
+		ws := &p.Files[0][0]
+		for i := 1; i <= k; i++ {
+			ws.Items = append([]WsItem{{Table: &Table{Name: name("Cyc", i), Abstract: true, Inh: q(name("Cyc", i%k+1)), Items: []TItem{}}}}, ws.Items...)
+		}
+		switch outside {
+		case "leaf":
+			ws.Items = append([]WsItem{{Table: &Table{Name: "CycLeaf", Inh: q("Cyc1"), Items: []TItem{}}}}, ws.Items...)
+		case "leaf2":
+			ws.Items = append([]WsItem{{Table: &Table{Name: "CycLeaf", Inh: q("CycMid"), Items: []TItem{}}},
+				{Table: &Table{Name: "CycMid", Abstract: true, Inh: q("Cyc1"), Items: []TItem{}}}}, ws.Items...)
+		case "nested":
+			ws.Items = append([]WsItem{{Table: &Table{Name: "CycDoc", Inh: &QRef{Pkg: "sys", Name: "CDoc"}, Items: []TItem{
+				{Nested: &Nested{Cont: "cn", Table: &Table{Name: "CycNest", Inh: q("Cyc1"), Items: []TItem{}}}}}}}}, ws.Items...)
+		}
+		return true
+	}
+	var extra []Ws
+	for i := 1; i <= k; i++ {
+		extra = append(extra, Ws{Name: name("WCyc", i), Abstract: true, Inh: []QRef{*q(name("WCyc", i%k+1))}, Items: []WsItem{}})
+	}
+	switch outside {
+	case "leaf":
+		// several parents, one of which leads into the cycle
+		inh := []QRef{}
+		for _, w := range p.Files[0] {
+			if w.Abstract && len(w.Inh) == 0 && len(inh) == 0 {
+				inh = append(inh, *q(w.Name))
+			}
+		}
+		extra = append(extra, Ws{Name: "WCycLeaf", Inh: append(inh, *q("WCyc1")), Items: []WsItem{}})
+	case "leaf2":
+		extra = append(extra, Ws{Name: "WCycMid", Abstract: true, Inh: []QRef{*q("WCyc1")}, Items: []WsItem{}},
+			Ws{Name: "WCycLeaf", Inh: []QRef{*q("WCycMid")}, Items: []WsItem{}})
+	}
+	p.Files[0] = append(p.Files[0], extra...)
+	return true
 }
